@@ -33,6 +33,7 @@ def check(model: Model, rep: Report, tier: str):
     q3(model, rep)
     q4_q5(model, rep)
     q6(model, rep)
+    q7(model, rep)
 
 
 def q1(model: Model, rep: Report):
@@ -465,3 +466,177 @@ def q6(model: Model, rep: Report):
                     why = f"pair test is {show(c)}"
     rep.check(ok, "C16.Q6", "GateSequenceGenerator.get_mutually_allowed", g.loc, found=why or "every ordered pair tested; True only when none fails", required="for a in ops: for b in ops: b must be allowed by a's constraints",
               what="a step is accepted without testing all ordered pairs of its gates: " + why, detail="all-pairs")
+
+
+# ---------------------------------------------------------------------------------------------
+def q7(model: Model, rep: Report):
+    rep.rule("C16.Q7", "OperationConstraint.get_forbidden_operations(operation, qubit): a qubit OF the operation may do nothing else (every other possible operation is "
+                       "forbidden); a qubit that is not a direct neighbour is unconstrained; a neighbour is forbidden every gate that intersects the operation, plus -- when it "
+                       "must park (get_requires_parking on the operation's own edge) -- idling and every remaining gate in which it would not move, plus -- when it must stay "
+                       "idle (get_requires_idle) -- parking and every remaining gate in which it would move.  get_allowed_operations == possible minus forbidden")
+    from ..listflow import contents, resolve_lists
+    from .common import devar
+    C = model.cls("OperationConstraint")
+    f = C.resolve("get_forbidden_operations")
+    ev = Evaluator(model, inline_methods=False)
+    ps = [p for p in PathEnumerator(ev).function_paths(f, self_cls=C) if p.exit == "return"]
+    names = [n for n in f.param_names if n != f.self_name]
+    op, q, con = (sym(n) for n in names[:3])
+    ident = ("attr", op, "identifier")
+    construct = "OperationConstraint.get_forbidden_operations"
+    has = ("call", ("attr", op, "contains"), (), (("element", q),))
+    is_edge = ("isinstance", ident, "IEdgeID")
+
+    def norm(t):
+        return _strip_lines(devar(t))
+
+    def gate(e):
+        return ("call", ("fn", "Operation.type_gate"), (), (("edge_id", e),))
+
+    def comp_over(dom, cond_of):
+        b = ("bound", 0, 0, show(dom))
+        return ("comp", "list", gate(b), ((dom, (cond_of(b),)),))
+    edges_q = ("call", ("attr", con, "get_edges"), (), (("qubit", q),))
+    n_case = {"member": 0, "far": 0, "neighbour": 0}
+    bad: List[str] = []
+    for p in ps:
+        c = p.cond
+        if subst(c, {has: FALSE}) == FALSE:
+            n_case["member"] += 1
+            v = devar(p.value)
+            ok = v[0] == "comp" and len(v[3]) == 1 and "get_possible_operations" in show(v[3][0][0]) and v[2][0] == "bound" and len(v[3][0][1]) == 1
+            if ok:
+                cnd = v[3][0][1][0]
+                ok = cnd in (t_not(t_cmp("==", v[2], op)), t_cmp("!=", v[2], op)) and dict(v[3][0][0][3]).get("qubit_id") == q
+            if not ok:
+                bad.append(f"a member qubit is forbidden {show(p.value)[:100]} instead of every other possible operation")
+            continue
+        val = p.value
+        if val is not None and devar(val) == ("list", ()) and val[0] != "var":
+            n_case["far"] += 1
+            nb = [a for a in atoms_of(c) if a[0] == "in" and a[1] == q and "get_neighbors" in show(a[2])]
+            if len(nb) != 1 or subst(c, {nb[0]: TRUE}) != FALSE or not subterms(nb[0][2], lambda y: y == ident) or "order" in dict(nb[0][2][3]) and number(dict(nb[0][2][3])["order"]) != 1:
+                bad.append(f"no constraint under [{show(c)[:120]}] (expected: only when the qubit is not a direct neighbour of the operation)")
+            continue
+        n_case["neighbour"] += 1
+        segs = contents(p, val) if val is not None and val[0] == "var" else None
+        if segs is None:
+            raise AnalysisError(f"{construct}: the forbidden list of a neighbour is not read as appended groups ({show(val)[:100] if val else None})")
+        park_atom = [a for a in atoms_of(c) if a[0] == "call" and a[1] == ("fn", "connectivity_surface_code.get_requires_parking")]
+        idle_atom = [a for a in atoms_of(c) if a[0] == "call" and isinstance(a[1], tuple) and a[1][-1:] == ("get_requires_idle",) or (a[0] == "call" and "get_requires_idle" in show(a[1]))]
+        if len(park_atom) != 1 or len(idle_atom) != 1:
+            bad.append("the neighbour case is not decided by get_requires_parking and get_requires_idle")
+            continue
+        must_park = subst(c, {park_atom[0]: FALSE}) == FALSE
+        must_idle = subst(c, {idle_atom[0]: FALSE}) == FALSE
+        edge_case = subst(c, {is_edge: FALSE}) == FALSE
+        want_edges = ("list", (ident,)) if edge_case else ("list", ())
+        for a_, nm in ((park_atom[0], "get_requires_parking"), (idle_atom[0], "get_requires_idle")):
+            kw = dict(a_[3])
+            vals = list(a_[2]) + list(kw.values())
+            if norm(kw.get("edge_ids", vals[1] if len(vals) > 1 else NONE)) != want_edges or q not in vals or con not in vals:
+                bad.append(f"{nm} is not asked for this qubit on the operation's own edge")
+        # every group as (what is forbidden, over which edges, under which tests); tests classified, spelling-independent
+        from ..extreme import fuse_comprehensions
+
+        def classify(cnd, b):
+            neg = False
+            while cnd[0] == "not":
+                neg, cnd = not neg, cnd[1]
+            if cnd[0] == "call" and "intersect" in show(cnd[1]) and subterms(cnd, lambda y: y == ident) and subterms(cnd, lambda y: y == b):
+                return ("not " if neg else "") + "intersects"
+            if cnd[0] == "call" and "on_moving_side" in show(cnd[1]) and set(list(cnd[2]) + [x for _, x in cnd[3]]) == {q, b, con}:
+                return ("not " if neg else "") + "moving"
+            if cnd[0] == "in" and cnd[1] == b:
+                # membership of the scanned edge in a filtered list of the same edges is that filter
+                inner = devar(fuse_comprehensions(resolve_lists(p, cnd[2])))
+                if inner[0] == "comp" and len(inner[3]) == 1 and norm(inner[3][0][0]) == norm(edges_q) and inner[2][0] == "bound":
+                    sub = sorted(classify(subst(x, {inner[2]: b}), b) for x in inner[3][0][1])
+                    if len(sub) == 1:
+                        return (sub[0][4:] if sub[0].startswith("not ") else "not " + sub[0]) if neg else sub[0]
+            return "?" + show(cnd)[:60]
+
+        def signature(sg):
+            sg = devar(fuse_comprehensions(resolve_lists(p, sg)))
+            if sg[0] == "list":
+                return [("item", norm(x)) for x in sg[1]]
+            if sg[0] == "comp" and len(sg[3]) == 1 and norm(sg[3][0][0]) == norm(edges_q):
+                bs = [y for y in subterms(sg[2], lambda y: y[0] == "bound")]
+                if len(bs) == 1 and norm(sg[2]) == norm(gate(bs[0])):
+                    return [("gates", tuple(sorted(classify(x, bs[0]) for x in sg[3][0][1])))]
+            return [("?", show(sg)[:80])]
+        got = sorted(x for sg in segs for x in signature(sg))
+        want = [("gates", ("intersects",))]
+        if must_park:
+            want += [("item", norm(("call", ("fn", "Operation.type_idle"), (), (("qubit_id", q),)))), ("gates", ("not intersects", "not moving"))]
+        if must_idle:
+            want += [("item", norm(("call", ("fn", "Operation.type_park"), (), (("qubit_id", q),)))), ("gates", ("moving", "not intersects"))]
+        want = sorted(want)
+        if got != want:
+            missing = [str(w)[:90] for w in want if w not in got]
+            extra = [str(g_)[:90] for g_ in got if g_ not in want]
+            bad.append(f"neighbour (must park={must_park}, must idle={must_idle}): missing {missing}, unexpected {extra}")
+    if min(n_case.values()) == 0:
+        raise AnalysisError(f"{construct}: cases not recognised {n_case}")
+    rep.check(not bad, "C16.Q7", construct, f.loc, found="; ".join(sorted(set(bad))) or f"member / far / neighbour cases as specified ({n_case})",
+              required="member: everything else; far: nothing; neighbour: intersecting gates, + idle & non-moving gates if it must park, + park & moving gates if it must idle",
+              what="the constraint that keeps simultaneous gates from sharing or disturbing a qubit is wrong: " + "; ".join(sorted(set(bad))), detail="forbidden")
+    g = C.resolve("get_allowed_operations")
+    gps = [p for p in PathEnumerator(Evaluator(model, inline_methods=False, opaque={"OperationConstraint.constraint_operations"})).function_paths(g, self_cls=C) if p.exit == "return"]
+    gs, gcon = sym(g.self_name), sym([n for n in g.param_names if n != g.self_name][0])
+    okg = len(gps) >= 1
+    found = []
+    for p in gps:
+        v = devar(p.value) if p.value is not None else None
+        found.append(show(v)[:200] if v else None)
+        okv = v is not None and v[0] == "comp" and len(v[3]) == 1 and len(v[3][0][1]) == 1 and v[2][0] == "bound"
+        if okv:
+            cnd = v[3][0][1][0]
+            okv = cnd == t_not(("in", v[2], ("attr", gs, "constraint_operations")))
+            dom = v[3][0][0]
+            if dom[0] == "call" and dom[1] == ("fn", "array_manipulation.unique_in_order"):
+                dom = (list(dom[2]) + [x for _, x in dom[3]])[0]
+            okv = okv and dom[0] == "comp" and len(dom[3]) == 2 and dom[3][0] == (("attr", gcon, "qubit_ids"), ()) and not dom[3][1][1] \
+                and "get_possible_operations" in show(dom[3][1][0]) and dom[2][0] == "bound" and dom[2][3] == show(dom[3][1][0])
+        okg = okg and okv
+    rep.check(okg, "C16.Q7", "OperationConstraint.get_allowed_operations", g.loc, found=found, required="[o for o in <possible operations of ALL qubits> if o not in self.constraint_operations]",
+              what="allowed operations are not the complement of the forbidden ones over the whole device", detail="allowed")
+    cprop = C.properties.get("constraint_operations")
+    v = devar(Evaluator(model, inline_methods=False).value_of(cprop, self_cls=C))
+    cs = sym(cprop.self_name)
+    inner = v
+    if inner[0] == "call" and inner[1] == ("fn", "array_manipulation.unique_in_order"):
+        inner = (list(inner[2]) + [x for _, x in inner[3]])[0]
+    okc = inner[0] == "comp" and len(inner[3]) == 2 and inner[3][0] == (("values", ("attr", cs, "forbidden_operations")), ()) and not inner[3][1][1] \
+        and inner[3][1][0][0] == "bound" and inner[2][0] == "bound" and inner[2] != inner[3][1][0]
+    rep.check(okc, "C16.Q7", "OperationConstraint.constraint_operations", cprop.loc, found=show(v)[:200], required="every forbidden operation of every qubit (flattened, unfiltered)",
+              what="constraints of some qubits are dropped from the constraint set", detail="constraint-set")
+    G = model.cls("GateSequenceGenerator")
+    cc = G.resolve("construct_operation_constraints")
+    v = Evaluator(model, inline_methods=False).value_of(cc, self_cls=G)
+    cop, ccon = (sym(n) for n in [n for n in cc.param_names if n != cc.self_name][:2])
+    okk = v[0] == "new" and v[1] == "OperationConstraint" and dict(v[2]).get("operation") == cop
+    if okk:
+        fo = devar(dict(v[2]).get("forbidden_operations", NONE))
+        okk = fo[0] == "dictcomp" and len(fo[3]) == 1 and fo[3][0] == (("attr", ccon, "qubit_ids"), ()) and fo[1][0] == "bound" \
+            and fo[2][0] == "call" and fo[2][1] == ("fn", "OperationConstraint.get_forbidden_operations") \
+            and dict(fo[2][3]) == {"operation": cop, "qubit_id": fo[1], "connectivity": ccon}
+    rep.check(okk, "C16.Q7", "GateSequenceGenerator.construct_operation_constraints", cc.loc, found=show(v)[:220], required="{q: get_forbidden_operations(operation, q, connectivity) for q in ALL connectivity.qubit_ids}",
+              what="the constraints of an operation are not collected for every qubit of the device", detail="constraints-all-qubits")
+    po = C.resolve("get_possible_operations")
+    pps = [p for p in PathEnumerator(Evaluator(model, inline_methods=False)).function_paths(po, self_cls=C) if p.exit == "return"]
+    pq, pcon = (sym(n) for n in [n for n in po.param_names if n != po.self_name][:2])
+    okp = len(pps) == 1
+    if okp:
+        segs = contents(pps[0], pps[0].value) if pps[0].value is not None and pps[0].value[0] == "var" else ([devar(pps[0].value)] if pps[0].value is not None else None)
+        flat = []
+        for sg in segs or []:
+            sg = devar(sg)
+            flat.extend([("item", x) for x in sg[1]] if sg[0] == "list" else [("comp", sg)])
+        want_items = {("call", ("fn", "Operation.type_idle"), (), (("qubit_id", pq),)), ("call", ("fn", "Operation.type_park"), (), (("qubit_id", pq),))}
+        items = {x for k, x in flat if k == "item"}
+        comps = [x for k, x in flat if k == "comp"]
+        okp = items == want_items and len(comps) == 1 and comps[0][0] == "comp" and len(comps[0][3]) == 1 and not comps[0][3][0][1] \
+            and _strip_lines(comps[0][3][0][0]) == _strip_lines(("call", ("attr", pcon, "get_edges"), (), (("qubit", pq),))) and comps[0][2][0] == "call" and comps[0][2][1] == ("fn", "Operation.type_gate")
+    rep.check(okp, "C16.Q7", "OperationConstraint.get_possible_operations", po.loc, found=[show(p.value)[:120] for p in pps], required="idle(q), park(q) and gate(e) for EVERY edge e of q",
+              what="some operation a qubit could perform is not considered (and therefore never forbidden or allowed)", detail="possible")
